@@ -37,10 +37,25 @@ def i_mul(i, fmap):
     fmap[dst] = fmap(dst * src)
 
 
+def __div_by_zero(dst, fmap):
+    # the divisor is the constant 0:
+    if dst is A:
+        # classic BPF: the filter terminates and returns 0
+        fmap[A] = cst(0, A.size)
+        fmap[pc] = top(pc.size)
+        return True
+    return False
+
+
 @__npc
 def i_div(i, fmap):
     dst, src = i.operands
-    fmap[dst] = fmap(dst / src)
+    if fmap(src == 0):
+        # eBPF: a division by zero sets the destination to zero
+        if not __div_by_zero(dst, fmap):
+            fmap[dst] = cst(0, dst.size)
+    else:
+        fmap[dst] = fmap(dst / src)
 
 
 @__npc
@@ -88,7 +103,11 @@ def i_neg(i, fmap):
 @__npc
 def i_mod(i, fmap):
     dst, src = i.operands
-    fmap[dst] = fmap(dst % src)
+    if fmap(src == 0):
+        # eBPF: a modulo by zero leaves the destination unchanged
+        __div_by_zero(dst, fmap)
+    else:
+        fmap[dst] = fmap(dst % src)
 
 
 @__npc
